@@ -56,6 +56,19 @@ class UserError(Exception):
             RAISED.append((CURRENT_TAG[0], code))
 
 
+class FalsyUserError(UserError):
+    """an exception object that is FALSY (defines __len__ == 0, like an aggregate error with no sub-errors):
+    library code must test a caught/stored exception for identity (`is not None`), never for truth"""
+
+    def __len__(self):
+        return 0
+
+
+def make_error(code):
+    """what a raising callback table raises: even codes raise the falsy flavour"""
+    return FalsyUserError(code) if code % 2 == 0 else UserError(code)
+
+
 LIB_ERRORS = {"ArgumentOutOfRangeException": -1, "SequenceContainsNoElementsError": -2,
               "Exception:Sequence contains more than one element": -3,
               "Exception:The input sequence was empty": -4, "KeyError": -5, "TypeError": -6,
@@ -283,6 +296,8 @@ def gen_inputs(rng, pool, maxlen=7, conforming=None, values=None):
     sometimes non-conforming (events after the terminal, double terminal)."""
     n = rng.choice([0, 1, 1, 2, 2, 3, 3, 4, 5, maxlen])
     vals = values if values is not None else list(range(pool.K))
+    if values is None and rng.random() < 0.2:
+        vals = vals + [0] * len(vals)      # a None-heavy input (id 0 is None in both pools): `is None` sentinels
     ins = []
     sticky = rng.random() < 0.5            # runs of equal consecutive values (distinct_until_changed, pairwise ...)
     for _ in range(n):
@@ -294,7 +309,7 @@ def gen_inputs(rng, pool, maxlen=7, conforming=None, values=None):
     if t < 0.55:
         ins.append(("C",))
     elif t < 0.85:
-        ins.append(("E", UserError(rng.choice([11, 12]))))
+        ins.append(("E", make_error(rng.choice([11, 12]))))
     if conforming is None:
         conforming = rng.random() < 0.8
     if not conforming:
@@ -327,7 +342,7 @@ class Table:
         CALLS.append(CURRENT_TAG[0])
         r = self.at(i)
         if r[0] == "raise":
-            raise UserError(r[1])
+            raise make_error(r[1])
         return self.post(r[1])
 
     def gallina(self):
